@@ -29,9 +29,11 @@ impl GGrid {
         let d = *r.pick(&[0.25, 0.5, 1.0, 2.0]);
         let dlat = d;
         let dlon = *r.pick(&[d, d, d * 2.0, d / 2.0]);
-        let base = if projected { 1000.0 } else { 0.0 };
-        let lat_s = base + r.range(-40, 40) as f64 * 0.5;
-        let lon_w = base + r.range(-80, 80) as f64 * 0.5;
+        // a projected grid has at least one border beyond 720 in magnitude: all four, or only some (a grid
+        // touching the equator or the central meridian of its projection, or straddling the limit)
+        let (blat, blon) = if projected { *r.pick(&[(1000.0, 1000.0), (1000.0, 1000.0), (0.0, 1000.0), (1000.0, 0.0), (715.0, 1000.0), (-1000.0, 200.0), (0.0, -1000.0)]) } else { (0.0, 0.0) };
+        let lat_s = blat + r.range(-40, 40) as f64 * 0.5;
+        let lon_w = blon + r.range(-80, 80) as f64 * 0.5;
         let lat_n = lat_s + dlat * (rows - 1) as f64;
         let lon_e = lon_w + dlon * (cols - 1) as f64;
         let values: Vec<f32> = (0..rows * cols * bands).map(|_| (r.range(-2000, 2000) as f32) / 16.0).collect();
